@@ -21,6 +21,20 @@ def group_c02(g, n):
         if c < 0.55:
             op = r.choice(BINOPS)
             x, y = g.pair(p)
+            if r.random() < 0.12:
+                # path lifting for the far-exponent shortcut of mpf_add: the larger operand has more bits
+                # than the precision, the exponent offset exceeds 100, and the smaller operand starts
+                # delta bits below the top with delta around prec+4 .. bc+4 (it overlaps the low bits)
+                op = r.choice(["add", "sub"])
+                sbc = p + r.randint(1, 300)
+                delta = r.choice([p + 4 + r.randint(-2, 3), sbc + 4 + r.randint(-3, 2), r.randint(p + 2, sbc + 6)])
+                tbc = max(1, sbc - delta + 101 + r.randint(0, 40))
+                sm = g.mant(sbc, p); tm = g.mant(tbc, p)
+                se = r.randint(-50, 50)
+                te = se + sbc - delta - tbc
+                x = gen.mk(sm * r.choice([1, -1]), se); y = gen.mk(tm * r.choice([1, -1]), te)
+                if r.random() < 0.5:
+                    x, y = y, x
             lvl = r.choice(["libmp", "libmp", "oper", "ffun"])
             if lvl == "oper":
                 rnd = "n"
@@ -165,6 +179,16 @@ def group_c05(g, n):
             out.append(case("hash_eq", "oper", [A_f(x), other], p, "n"))
             continue
         rel = r.choice(rels)
+        if r.random() < 0.15:
+            # mpf values outside the double range (or below the subnormal grid) against floats near the range ends
+            m = g.mant(r.randint(1, 53), 53) * r.choice([1, -1])
+            e = r.choice([-1, 1]) * r.randint(1020, 1300) if r.random() < 0.7 else r.randint(-1130, -1060)
+            x = gen.mk(m, e - abs(m).bit_length() if e > 0 else e)
+            fl = r.choice([0.0, -0.0, 5e-324, -5e-324, 1e-320, 2.0 ** -1048, 2.2250738585072014e-308, 1.7976931348623157e308,
+                           -1.7976931348623157e308, float("inf"), float("-inf")])
+            args = [A_f(x), A_d(fl)] if r.random() < 0.5 else [A_d(fl), A_f(x)]
+            out.append(case(rel, "oper", args, p, "n"))
+            continue
         lvl = "libmp" if (rel != "ne" and r.random() < 0.4) else "oper"
         args = [A_f(x), A_f(y)]
         if lvl == "oper":
@@ -219,6 +243,11 @@ def group_c06(g, n):
         else:
             x, y = g.pair(p, special=0.06)
             t = r.random()
+            if r.random() < 0.15:
+                # the modulo shortcuts: zero or tiny dividend, every sign mix, divisor a (multiple of a) power of two
+                x = r.choice([gen.FZERO, gen.FZERO, gen.mk(r.choice([1, -1, 3, -5]), r.randint(-80, -2))])
+                y = gen.mk(r.choice([1, -1, -1, 3, -3, -5, 7]), r.randint(-3, 12))
+                t = 0.5
             if t < 0.2 and y[1]:
                 y = gen.mk((-1) ** y[0], y[2] + y[3] - 1)          # power-of-two divisor
             if t > 0.8:
